@@ -66,6 +66,26 @@ where
     }
 }
 
+impl<F: TryFuture> TryJoinAll<F> {
+    /// Drops the outputs collected so far and cancels the futures that have not finished.
+    ///
+    /// `failed` is the slot whose future has just finished with an error, i.e. without an output.
+    fn release(&mut self, failed: Option<usize>) {
+        let mut output = core::mem::replace(&mut self.output, Vec::new().into_boxed_slice());
+        for (i, slot) in output.iter_mut().enumerate() {
+            if self.queue.tasks.get(i).is_some() {
+                // still running: cancel it
+                self.queue.tasks.remove(i);
+            } else if Some(i) != failed {
+                // SAFETY: the queue was created full and a slot is only vacated when its future
+                // finished; unless that was the failure, the output of slot `i` was written and
+                // has not been moved out (the buffer is emptied when it is handed out).
+                unsafe { slot.assume_init_drop() };
+            }
+        }
+    }
+}
+
 impl<F: TryFuture> Future for TryJoinAll<F> {
     type Output = Result<Vec<F::Ok>, F::Err>;
 
@@ -75,7 +95,11 @@ impl<F: TryFuture> Future for TryJoinAll<F> {
                 Poll::Ready(Some((i, Ok(t)))) => {
                     self.output[i].write(t);
                 }
-                Poll::Ready(Some((_, Err(e)))) => {
+                Poll::Ready(Some((i, Err(e)))) => {
+                    // the slot of the failed future is never written: release what was collected
+                    // and cancel the other futures now, so that no later poll can reach the
+                    // `assume_init` below with a partially initialised buffer.
+                    self.release(Some(i));
                     break Poll::Ready(Err(e));
                 }
                 Poll::Ready(None) => {
